@@ -7,6 +7,12 @@ under S nor as a value under any other subset), keys of different subsets differ
 a handshake i->j carries exactly the keys of the subsets S with min(S)=i and j in S.  Hence every
 coalition of t parties misses the key of its complement (checked by enumeration).  A PRSS-based
 random value is opened as an end-to-end consistency check.
+
+Two-session histories (start .. shutdown, mpc.threshold = t2, start .. shutdown in ONE process, as
+a program with several mpc.run/start calls does): after the second set-up the same invariants must
+hold for t2, each party's `prfs(bound)` must map exactly the (m-t2)-subsets it belongs to, built on
+the keys in force (members of a subset compute equal PRF outputs), and the PRSS values of the
+second session must lie on a polynomial of degree <= t2.
 """
 import itertools
 import math
@@ -19,7 +25,10 @@ ID = 'C16'
 LEVEL = 'exploration'
 RULE = ('every (m,t) with 2t<m, m<=8, C(m,t)<=56 enumerated with round-robin, serial and byte-at-a-time handshake '
         'delivery, plus generated schedules/chunkings/seeds; oracle = subset-key invariant over all parties\' '
-        '_prss_keys and the handshake bytes on the wire; non-trivial = t>=1 and m>=3; distinct by case hash')
+        '_prss_keys and the handshake bytes on the wire; plus two-session histories (threshold t1, shutdown, threshold '
+        't2, set-up again; all pairs t1 != t2 enumerated for m<=6 and generated): same invariant at t2, prfs(bound) '
+        'keyed by exactly the (m-t2)-subsets with equal PRF outputs among members, PRSS shares of degree <= t2; '
+        'non-trivial = t>=1 and m>=3 (two-session: max(t1,t2)>=1); distinct by case hash')
 ASSUMPTIONS = ['keys of different subsets differ: 16 random bytes, collision probability negligible (< 2^-100)']
 
 CONFIGS = [(m, t) for m in range(1, 9) for t in range(0, m) if (2 * t < m or m == 1) and math.comb(m, t) <= 56]
@@ -40,6 +49,13 @@ def enumerate_cases(tier):
         for ct in range(0, (m + 1) // 2):
             if ct != t and 2 * ct < m:
                 yield dict(m=m, t=t, seed=m * 100 + t, sched={'mode': 'rr'}, cli_t=ct)
+    # two sessions in one process: every ordered pair of different thresholds
+    for m in range(2, 7):
+        ts = [t for t in range(m) if 2 * t < m and math.comb(m, t) <= 56]
+        for t1 in ts:
+            for t2 in ts:
+                if t1 != t2:
+                    yield dict(m=m, t=t1, t2=t2, seed=m * 1000 + t1 * 10 + t2, sched={'mode': 'rr'})
 
 
 @st.composite
@@ -48,7 +64,12 @@ def _case(draw, tier):
     sched = draw(progs.schedule(m))
     if sched.get('mode') != 'fast':
         sched['chunks'] = draw(st.lists(st.sampled_from([0, 1, 2, 3, 15, 16, 17, 18, 31, 32, 33, 34]), max_size=6))
-    return dict(m=m, t=t, seed=draw(st.integers(0, 2**30)), sched=sched, cli_t=draw(progs.cli_threshold(m, t)))
+    case = dict(m=m, t=t, seed=draw(st.integers(0, 2**30)), sched=sched, cli_t=draw(progs.cli_threshold(m, t)))
+    if draw(st.integers(0, 3)) == 0:
+        t2s = [x for x in range(m) if 2 * x < m and x != t and math.comb(m, x) <= 56]
+        if t2s:
+            case['t2'] = draw(st.sampled_from(t2s))
+    return case
 
 
 def strategy(tier):
@@ -59,7 +80,8 @@ async def _prog(mpc, pid):
     secint = mpc.SecInt(16)
     r = mpc._random(secint, 1000)            # PRSS randomness: consistent only if keys agree
     b = mpc.random_bit(secint)
-    return [await mpc.output(r), await mpc.output(b)]
+    sh = await mpc.gather([r, b])
+    return [await mpc.output(r), await mpc.output(b), [int(x.value) for x in sh], secint.field.modulus]
 
 
 def run_case(case):
@@ -68,17 +90,64 @@ def run_case(case):
     sim = simmod.Sim(m, t, prss=True, seed=case['seed'], schedule=case['sched'], cli_threshold=case.get('cli_t'))
     try:
         res = sim.run_programs(_prog)
-        keys = [dict(rt._prss_keys) for rt in sim.runtimes]
+        bad = _check_session(sim, res, m, t, case, labels)
+        t2 = case.get('t2')
+        if bad is None and t2 is not None:
+            labels += ['two-sessions', f't2={t2}', 'lower' if t2 < t else 'raise']
+            # the program assigns mpc.threshold between two sessions (each party in its own context)
+            for i, rt in enumerate(sim.runtimes):
+                sim._in_party(i, setattr, rt, 'threshold', t2)
+            sim.t = t2
+            sim.eof.clear()
+            res = sim.run_programs(_prog)
+            bad = _check_session(sim, res, m, t2, case, labels, second=True)
+            t = max(t, t2)
     finally:
         sim.close()
+    if bad is not None:
+        return bad
+    return Outcome(True, labels=labels, nontrivial=t >= 1 and m >= 3)
+
+
+def _check_session(sim, res, m, t, case, labels, second=False):
+    """None if the subset-key invariant holds after this session's set-up, else the failing Outcome."""
+    from vlib import refmath as R
+    keys = [dict(rt._prss_keys) for rt in sim.runtimes]
     if res.inconclusive:
         return Outcome(True, inconclusive=True, labels=labels, nontrivial=False)
     if not res.all_done:
         return Outcome(False, f'run did not complete: {res.describe()}\ncase={case}', labels=labels)
-    if any(v != res.values[0] for v in res.values):
+    if any(v[:2] != res.values[0][:2] for v in res.values):
         return Outcome(False, f'parties opened different PRSS values: {res.values}\ncase={case}', labels=labels)
     if not (0 <= res.values[0][0] < 1000 and res.values[0][1] in (0, 1)):
         return Outcome(False, f'PRSS values out of range: {res.values[0]}', labels=labels)
+    if second:
+        # shares of the second session's PRSS values: one polynomial of degree <= t (the threshold in force)
+        p = res.values[0][3]
+        for k in range(2):
+            pts = [(i + 1, res.values[i][2][k] % p) for i in range(m)]
+            poly = R.interpolate_prime(pts, p)
+            if len(poly) - 1 > t:
+                return Outcome(False, f'second session (threshold {t}): PRSS value {k} has shares '
+                               f'{[y for _, y in pts]} on a polynomial of degree {len(poly) - 1} > {t}\ncase={case}',
+                               labels=labels)
+            if (poly[0] if poly else 0) != res.values[0][k] % p:
+                return Outcome(False, f'second session: PRSS value {k} opened as {res.values[0][k]} but its sharing '
+                               f'has constant term {poly[0] if poly else 0}\ncase={case}', labels=labels)
+        # the PRFs each party uses: exactly its (m-t)-subsets, equal outputs among the members of a subset
+        for bound in (1000, p):
+            maps = [sim._in_party(i, rt.prfs, bound) for i, rt in enumerate(sim.runtimes)]
+            for i in range(m):
+                want = {S for S in itertools.combinations(range(m), m - t) if i in S}
+                if set(maps[i]) != want:
+                    return Outcome(False, f'second session (threshold {t}): party {i} uses PRFs for subsets '
+                                   f'{sorted(maps[i])[:4]}..., expected exactly its {len(want)} subsets of size {m - t}'
+                                   f'\ncase={case}', labels=labels)
+            for S in itertools.combinations(range(m), m - t):
+                outs = {tuple(maps[i][S](b'c16', 2)) for i in S}
+                if len(outs) != 1:
+                    return Outcome(False, f'second session: members of {S} compute different PRF outputs (bound '
+                                   f'{bound})\ncase={case}', labels=labels)
     subsets = list(itertools.combinations(range(m), m - t))
     keyof = {}
     for S in subsets:
@@ -125,4 +194,4 @@ def run_case(case):
             if got != want:
                 return Outcome(False, f'handshake {i}->{j} carries {len(hs) - 2} key bytes that are not exactly the '
                                f'keys of the subsets led by {i} and containing {j}\ncase={case}', labels=labels)
-    return Outcome(True, labels=labels, nontrivial=t >= 1 and m >= 3)
+    return None
